@@ -178,8 +178,11 @@ def get_arg_defaults(task: "Task", args: tuple, kwargs: dict) -> dict:
 
     sig = task.signature
     for i, param in enumerate(sig.parameters.values()):
-        if i < len(args):
-            # User already specified this arg in args.
+        if i < len(args) and param.kind in (
+            inspect.Parameter.POSITIONAL_ONLY,
+            inspect.Parameter.POSITIONAL_OR_KEYWORD,
+        ):
+            # User already specified this arg in args (only positional parameters can be).
             continue
 
         elif param.name in kwargs:
